@@ -39,6 +39,7 @@ type fakeEngine struct {
 	pending  []expressed
 	handlers map[string]ndn.InterestHandler
 	nExpress int
+	onExec   func(module string, cmd string, args any) error // stand-in forwarder (executor histories)
 }
 
 func newFakeEngine(seed int64) *fakeEngine {
@@ -74,7 +75,12 @@ func (e *fakeEngine) Express(interest *ndn.EncodedInterest, cb ndn.ExpressCallba
 }
 func (e *fakeEngine) RegisterRoute(prefix enc.Name) error              { return nil }
 func (e *fakeEngine) UnregisterRoute(prefix enc.Name) error            { return nil }
-func (e *fakeEngine) ExecMgmtCmd(module string, cmd string, args any) error { return nil }
+func (e *fakeEngine) ExecMgmtCmd(module string, cmd string, args any) error {
+	if e.onExec != nil {
+		return e.onExec(module, cmd, args)
+	}
+	return nil
+}
 
 // takePending removes and returns the pending Interests whose name has the given prefix.
 func (e *fakeEngine) takePending(prefix enc.Name) []expressed {
